@@ -699,6 +699,14 @@ func scriptLateSameTermVote() []Event {
 // scriptCheckQuorumReports: the leader is cut off; its transport keeps reporting the peers
 // unreachable (and a snapshot failure, and a transfer request arrives) – local reports about a
 // peer are not contact with that peer.
+// scriptCheckQuorumTransfer: node 1 leads and is asked to hand over to node 2 while node 2 cannot
+// be reached (the transfer times out), then loses contact with everybody and keeps receiving
+// transfer requests with alternating targets.
+func scriptCheckQuorumTransfer() []Event {
+	return seq(ticks(1, 3), prop(1), roundTicks(3, 1), cut(1, 2), xfer(1, 2), ticks(1, 2), ticks(3, 1), ticks(1, 2), heal(), roundTicks(3, 1), prop(1),
+		isolate(1), ticks(1, 2), xfer(1, 2), ticks(1, 2), xfer(1, 3), ticks(1, 2), xfer(1, 2), ticks(1, 2))
+}
+
 func scriptCheckQuorumReports() []Event {
 	return seq(ticks(1, 3), prop(1), roundTicks(3, 1), isolate(1),
 		ticks(1, 2), unreach(1, 2), unreach(1, 3), ticks(1, 2), unreach(1, 2), reportSnap(1, 3, 1), ticks(1, 2), xfer(1, 2), unreach(1, 3), ticks(1, 2), unreach(1, 2), unreach(1, 3), ticks(1, 2),
@@ -829,8 +837,18 @@ func poolElection(tier string) (p pool) {
 	for _, f := range []feat{syncF, pvF, asyncF} {
 		p.dd = append(p.dd, ddScn("vote-only-crash", 3, ids(3), f, scriptVoteOnlyCrash(), devK(tier), defaultFaults...))
 	}
+	for _, f := range []feat{syncF, asyncF} {
+		p.dd = append(p.dd, ddScn("two-terms-one-ready", 3, ids(3), f, scriptTwoTermsOneReady(), devK(tier), defaultFaults...))
+	}
 	for _, f := range []feat{syncF, asyncF, pvF} {
 		p.dd = append(p.dd, ddScn("transfer-vs-election", 3, ids(3), f, scriptTransferVsElection(), devK(tier), defaultFaults...))
+	}
+	// a MsgTimeoutNow that arrives long after the transfer was given up: the leader has meanwhile
+	// committed entries the transferee does not hold
+	for _, f := range []feat{syncF, asyncF, pvF} {
+		lt := tickSc("late-timeout-now", 3, f, seq(ticks(1, 3), prop(1), holdTo(1, 3), xfer(1, 3), ticks(1, 4), prop(1), prop(1), deliverHeld(1, 3), prop(1), heal(), flush(), ticks(1, 1), prop(1)), devK(tier), int(BTick), 1, int(BDrop), 1, int(BDup), 1)
+		lt.TickNodes = []uint8{1}
+		p.dd = append(p.dd, lt)
 	}
 	for _, f := range []feat{syncF, pvcqF} {
 		p.dd = append(p.dd, ddScn("transfer-twice", 3, ids(3), f, scriptTransferTwice(), devK(tier), defaultFaults...),
@@ -858,6 +876,14 @@ func scriptTransferToRemoved() []Event {
 // transferee then campaigns for the same term with the transfer context.
 func scriptTransferVsElection() []Event {
 	return seq(camp(1), prop(1), cut(2, 3), holdFrom(1), xfer(1, 2), camp(3), flush(), prop(3), prop(2), heal(), prop(3), prop(2))
+}
+
+// scriptTwoTermsOneReady: node 1's application is slow to call Ready while it grants a vote in
+// term 1 and, before that Ready, is asked again in term 2: one Ready has to carry the promises
+// of two terms (the older one still waits for the same write).
+func scriptTwoTermsOneReady() []Event {
+	return seq(holdFrom(2), holdFrom(3), camp(2), camp(3), camp(3), pauseReady(1, 1), deliverHeld(2, 1), deliverHeld(3, 1), deliverHeld(3, 1), pauseReady(1, 0),
+		crash(1, 0), flush(), camp(2), prop(2), prop(3))
 }
 
 // scriptVoteOnlyCrash: a stale candidate and an up-to-date candidate campaign in the
@@ -999,6 +1025,11 @@ func poolConf(tier string) (p pool) {
 		lv.Learners = []uint64{2}
 		lv.ConfMenu = []ConfSpec{{Changes: "v2"}}
 		p.dd = append(p.dd, lv)
+	}
+	// a snapshot whose membership does not contain the recipient (the node was removed while cut off;
+	// the application ships the snapshot it has) must be ignored
+	for _, f := range []feat{syncF, asyncF} {
+		p.dd = append(p.dd, confSc("snapshot-to-removed-node", f, seq(camp(1), prop(1), isolate(3), conf(1, mRemove3), prop(1), prop(1), compact(1, 0), heal(), sendSnap(1, 3), prop(1), sendSnap(1, 3), prop(1)), k, defaultFaults...))
 	}
 	// the last voter is asked to remove itself: the application cancels the committed change
 	for _, f := range []feat{syncF, asyncF} {
@@ -1182,6 +1213,13 @@ func poolTick(tier string) (p pool) {
 		p.dd = append(p.dd, tickSc("checkquorum-reports", 3, f, scriptCheckQuorumReports(), k, tb...))
 	}
 	for _, f := range []feat{cqF, pvcqF} {
+		// leadership transfers requested at a CheckQuorum leader, first while it is connected, then
+		// while it is cut off (each request it acts on restarts its CheckQuorum period: known finding KF-3)
+		ct := tickSc("checkquorum-transfer", 3, f, scriptCheckQuorumTransfer(), k, int(BTick), 2, int(BDrop), 1, int(BTransfer), 1)
+		ct.TransferPairs = [][2]uint8{{1, 2}, {1, 3}}
+		p.dd = append(p.dd, ct)
+	}
+	for _, f := range []feat{cqF, pvcqF} {
 		sp := tickSc("checkquorum-snapshot-peer", 3, f, scriptCheckQuorumSnapshotPeer(), k, tb...)
 		sp.SlowSnap = true
 		p.dd = append(p.dd, sp)
@@ -1316,6 +1354,7 @@ func Jobs(prop, tier string) []*Job {
 		add(pool{dd: poolSafety(tier).dd}, prop)
 	case "C09":
 		add(poolSnapshot(tier), prop)
+		add(pool{dd: poolConf(tier).dd}, prop) // snapshots that carry membership changes
 	case "C10":
 		add(poolConf(tier), prop)
 		addNode()
